@@ -28,6 +28,9 @@ static void apply_basis (Args& A)
   else if (b == "ell") { double o = hexdouble(A.next()); double e = hexdouble(A.next());
     for (int k=0;k<4;k++) A.next();   // the four libm leaf values (read by the model side only)
     Pauli::basis().set_basis (o, e); }
+  // a history of settings on the process-wide basis object, rejected ones included (the enumerator Elliptical is refused by set_basis(Signal::Basis) with an exception, which the caller catches)
+  else if (b == "hist") { unsigned n = A.nat(); for (unsigned i=0;i<n;i++) apply_basis (A); }
+  else if (b == "bad") { try { Pauli::basis().set_basis (Signal::Elliptical); } catch (std::exception&) { } }
   else throw ProtocolError ("basis");
 }
 
@@ -289,16 +292,6 @@ int main ()
     O.put (Rat(Minkowski::inner(a,a) - a.invariant()));
     Stokes<Rat> l = a + s*c;
     O.put (Rat(Minkowski::inner(l,b) - (Minkowski::inner(a,b) + s*Minkowski::inner(c,b)))); };
-  // dyadic operands (small integers times powers of two): every double and float operation is exact, so the
-  // floating-point instantiations must return exactly the rational values, in either operand order
-  OP("o.c15.dyadic") { auto a=A.stokes(); auto b=A.stokes();
-    Vector<4,double> ad, bd; Vector<4,float> af, bf; for (unsigned i=0;i<4;i++) { ad[i] = (double) a[i]; bd[i] = (double) b[i]; af[i] = (float) ad[i]; bf[i] = (float) bd[i]; }
-    Rat dot = a[1]*b[1] + a[2]*b[2] + a[3]*b[3]; Rat in = a[0]*b[0] - dot;
-    O.put (Rat(Rat(Minkowski::inner(ad,bd)) - in)); O.put (Rat(Rat(Minkowski::inner(bd,ad)) - in));
-    O.put (Rat(Rat((double) Minkowski::inner(af,bf)) - in)); O.put (Rat(Rat((double) Minkowski::inner(bf,af)) - in));
-    Matrix<4,4,double> od = Minkowski::outer(ad,bd); Matrix<4,4,double> odt = Minkowski::outer(bd,ad);
-    for (unsigned i=0;i<4;i++) for (unsigned j=0;j<4;j++) { Rat e = a[i]*b[j]; if (i == j) e += (i == 0 ? Rat(-1) : Rat(1)) * in / Rat(2);
-      O.put (Rat(Rat(od[i][j]) - e)); O.put (Rat(Rat(odt[j][i]) - e)); } };
   OP("o.c15.outer") { auto a=A.stokes(); auto b=A.stokes(); auto c=A.stokes(); auto s=A.rat();
     Matrix<4,4,Rat> ab = Minkowski::outer(a,b); Matrix<4,4,Rat> ba = Minkowski::outer(b,a); Matrix<4,4,Rat> aa = Minkowski::outer(a,a);
     Pauli::basis().set_basis (Signal::Linear);
